@@ -60,7 +60,28 @@ func decoderRoots(c *Ctx) (roots []*ssa.Function, missing []string) {
 // a dynamic call; collect them by type (any repo function with the registry's value type).
 func c07reach(c *Ctx) map[*ssa.Function]bool {
 	roots, _ := decoderRoots(c)
-	return reachStatic(c, roots)
+	out := reachStatic(c, roots)
+	if c.Thorough {
+		// thorough: add whatever the whole-program VTA call graph reaches inside the decoder packages
+		// (cross-check of the signature-based resolution of the reader registry)
+		extra := 0
+		for f := range c.P.ReachableRepoFuncs(roots, true) {
+			top := f
+			for top.Parent() != nil {
+				top = top.Parent()
+			}
+			if top.Pkg == nil {
+				continue
+			}
+			pp := top.Pkg.Pkg.Path()
+			if (strings.HasSuffix(pp, "/encoding/wkb") || strings.HasSuffix(pp, "/encoding/hex") || strings.HasSuffix(pp, "/encoding/geojson")) && !out[f] {
+				out[f] = true
+				extra++
+			}
+		}
+		c.Note("thorough: VTA call graph adds %d decoder-package functions to the statically resolved reachable set", extra)
+	}
+	return out
 }
 
 // reachStatic: repo functions reachable through static calls, closures, and
